@@ -229,37 +229,46 @@ def e2e_batch(args):
             if m:
                 printed[int(m.group(1))].append((be + ":db-prototype", m.group(2)))
                 seen_f.add(int(m.group(1)))
-        if len(seen_f) != len(lits):
-            return {"error": "database (%s) holds prototypes for %d of %d functions"
-                             % (be, len(seen_f), len(lits))}
+        if not seen_f:
+            return {"error": "database (%s) holds no recognisable prototype of %d functions"
+                             % (be, len(lits))}
+        for i in range(len(lits)):          # unrecognisable (e.g. garbage in the text): the
+            if i not in seen_f:             # literal was not written back as a literal
+                printed[i].append((be + ":db-prototype", "<no recognisable prototype>"))
         if not float_family:
-            seen_m = 0
+            seen_m = set()
             for mf in dump["manifests"].values():
                 m = re.match(r"^M_(\d+)$", mf["name"])
                 if m:
                     printed[int(m.group(1))].append((be + ":db-manifest", mf["definition"].strip()))
-                    seen_m += 1
-            if seen_m != len(lits):
-                return {"error": "database (%s) holds %d of %d manifests" % (be, seen_m, len(lits))}
+                    seen_m.add(int(m.group(1)))
+            if not seen_m:
+                return {"error": "database (%s) holds none of %d manifests" % (be, len(lits))}
+            for i in range(len(lits)):
+                if i not in seen_m:
+                    printed[i].append((be + ":db-manifest", "<manifest missing>"))
         code = open(os.path.join(d, be + ".cxx"), errors="replace").read()
         for m in re.finditer(r"void f_(\d+)\(%s x = ([^)\n]*)\)" % ptype, code):
             printed[int(m.group(1))].append((be + ":code-comment", m.group(2)))
         if be == "pyn":
             cur = None
-            n_code = 0
-            for line in code.splitlines():
+            seen_c = set()
+            for line in code.split("\n"):
                 m = re.match(r"^static PyObject \*Dtool_f_(\d+)_\d+\(", line)
                 if m:
                     cur = int(m.group(1))
                     continue
-                m = re.match(r"^\s*%s param0 = ([^;]*);" % ptype, line)
+                m = re.match(r"^\s*%s param0 = (.*);\s*$" % ptype, line)
                 if m and cur is not None:
                     printed[cur].append(("pyn:code-default", m.group(1).strip()))
-                    n_code += 1
+                    seen_c.add(cur)
                     cur = None
-            if n_code != len(lits):
-                return {"error": "generated python-native code holds %d of %d default values"
-                                 % (n_code, len(lits))}
+            if not seen_c:
+                return {"error": "generated python-native code holds no default value of %d"
+                                 % len(lits)}
+            for i in range(len(lits)):
+                if i not in seen_c:
+                    printed[i].append(("pyn:code-default", "<no recognisable default value>"))
     # the checker: the compiler gives the bits of LIT and of every printed text
     rows, notlit = [], []
     for i, lit in enumerate(lits):
